@@ -552,6 +552,31 @@ pub fn run_history(rng: &mut Rng, mix: Mix) -> Outcome {
     }
     let nsteps = run.rng.range(1, mix.max_steps);
     let mut prev_sig = String::from("start");
+    // Replacing the question (delete it, insert another one) is the only way a record enters the question
+    // section of a parsed packet; on starts at or above the size limit a third of the histories begin with it,
+    // so that the limit is also exercised for Section::Question.
+    let mut force_question_insert = false;
+    if (mix.big_start || mix.near_limit == 8192) && !run.model.question.is_empty() && run.rng.chance(1, 3) {
+        let what = "into_iter_question().delete() [question replacement]".to_string();
+        run.logp(what.clone());
+        let before = run.model.clone();
+        let strict = strict_state(pp.packet());
+        let r = pp.into_iter_question().map(|mut q| q.delete());
+        match r {
+            Some(Ok(())) => {
+                run.model.question.remove(0);
+                run.note("question_replacements");
+                force_question_insert = run.monitor(&pp, &what).is_some();
+            }
+            Some(Err(e)) => {
+                if strict {
+                    run.findings.push(f(Prop::C08, "unexpected-error|delete", format!("{}: {}", what, e)));
+                }
+                run.failed(&pp, &before, &what);
+            }
+            None => run.findings.push(f(Prop::C08, "cursor|missing", format!("{}: no question cursor on a packet with a question", what))),
+        }
+    }
     for step in 0..nsteps {
         // a finding of ANOTHER property does not end the history: its consequences may be what this run is after
         if run.halt() {
@@ -568,6 +593,10 @@ pub fn run_history(rng: &mut Rng, mix: Mix) -> Outcome {
         run.flag_before = compressed;
         let err_step = run.rng.below(16) < mix.error_sixteenths;
         let mut choice = run.rng.below(100);
+        let forced_q = std::mem::replace(&mut force_question_insert, false);
+        if forced_q {
+            choice = 30 + run.rng.below(20);
+        }
         if aliasing {
             run.note("steps_on_header_aliased_packets");
             if choice < 14 {
@@ -683,7 +712,7 @@ pub fn run_history(rng: &mut Rng, mix: Mix) -> Outcome {
             }
         } else if choice < 50 {
             // ---- insertion
-            let sec = run.rng.below(4);
+            let sec = if forced_q { 0 } else { run.rng.below(4) };
             let section = [Section::Question, Section::Answer, Section::NameServers, Section::Additional][sec];
             let lit_len = run.literal_len();
             if err_step && run.rng.chance(1, 3) {
@@ -711,6 +740,11 @@ pub fn run_history(rng: &mut Rng, mix: Mix) -> Outcome {
                             run.findings.push(f(Prop::C10, "insert|second-question-accepted", what.clone()));
                         } else {
                             run.model.question.push(Question { name: n, qtype: u16::from(gtype(t)), qclass: 1 });
+                            // the size limit holds for a replacement question as for any other record
+                            if pp.packet().len() > 8192 {
+                                run.findings.push(f(Prop::C10, "insert|size-limit-bypassed", format!("{}: packet is now {} bytes", what, pp.packet().len())));
+                            }
+                            run.note("question_inserts_ok");
                             run.monitor(&pp, &what);
                         }
                     }
